@@ -28,7 +28,7 @@ func (g *Gen) MixinDoc(ids *idPool) M {
 				}
 			}
 			if g.p(0.4) {
-				c[g.pick([]string{"x-c1", "x-c2"})] = g.n(5)
+				c[g.pick([]string{"x-c1", "x-c2", "X-C1", "x-Contact"})] = g.n(5)
 			}
 			info["contact"] = c
 		}
@@ -40,11 +40,11 @@ func (g *Gen) MixinDoc(ids *idPool) M {
 				}
 			}
 			if g.p(0.4) {
-				l[g.pick([]string{"x-l1", "x-l2"})] = "v"
+				l[g.pick([]string{"x-l1", "x-l2", "X-L1", "x-License"})] = "v"
 			}
 			info["license"] = l
 		}
-		for _, k := range []string{"x-i1", "x-i2", "x-i3"} {
+		for _, k := range []string{"x-i1", "x-i2", "x-i3", "X-I1", "x-Info"} {
 			if g.p(0.3) {
 				info[k] = g.pick([]string{"u", "v"})
 			}
@@ -70,7 +70,7 @@ func (g *Gen) MixinDoc(ids *idPool) M {
 	if g.p(0.4) {
 		d["basePath"] = g.pick([]string{"/v1", "/v2"})
 	}
-	for _, k := range []string{"x-r1", "x-r2", "x-r3"} {
+	for _, k := range []string{"x-r1", "x-r2", "x-r3", "X-R1", "x-Rate-Limit", "X-Rate-Limit"} {
 		if g.p(0.3) {
 			d[k] = M{"v": g.n(3)}
 			g.hit("mixin:rootext")
